@@ -22,6 +22,7 @@ type world struct {
 	promises []pending
 	async    bool
 	depth    int
+	subSeen  string // what the subscription resolver last returned to a subscribe call (ws entries)
 }
 
 type pending struct {
